@@ -2,7 +2,7 @@
    Model: C26/Model.v (create_nxgraph under all options, connected_components, calc_distance_to_bus). *)
 From Coq Require Import String.
 From Coq Require Import List Bool Arith QArith.
-From PPV Require Import Base.C07Graph Base.C26Dist C07.Model C26.Model C26.Proofs.
+From PPV Require Import Base.C07Graph Base.C26Dist C07.Model C26.Model C26.Proofs C26.Stages.
 Import ListNotations.
 Local Open Scope nat_scope.
 
@@ -77,6 +77,91 @@ Theorem C26_notrav_oos_old_refuted :
   (exists g, create_nxgraph (o_default [2]) w_chain [1; 1; 1]%Q = Ok g /\ no_dangling g = true).
 Proof. exact notrav_oos_old_refuted. Qed.
 Print Assumptions C26_notrav_oos_old_refuted.
+
+(* ------------------------------------------------------------------ the stages of create_nxgraph, for every input *)
+(* build stage, on the edge list: an arc is an edge of the list (or its mirror image) that no later edge between the
+   same pair of nodes (MultiGraph: with the same key) has overwritten; the nodes are the edge ends and all buses *)
+Theorem C26_build_arcs_exact : forall o n es a,
+  In a (g_arcs (build_graph o n es)) <->
+  exists es1 e es2, es = es1 ++ e :: es2 /\ (a = e \/ a = mirror e) /\
+                    forall e', In e' es2 -> clash (o_multi o) a e' = false.
+Proof. exact build_arcs_exact. Qed.
+Print Assumptions C26_build_arcs_exact.
+Theorem C26_build_nodes_exact : forall o n es x,
+  In x (g_nodes (build_graph o n es)) <->
+  (exists e, In e es /\ (x = e_u e \/ x = e_v e)) \/ exists r, In r (buses n) /\ b_id r = x.
+Proof. exact build_nodes. Qed.
+Print Assumptions C26_build_nodes_exact.
+(* every edge of the list is represented by an arc between the same ordered pair (MultiGraph: with the same key) *)
+Theorem C26_build_arcs_complete : forall m es e, In e es ->
+  exists a, In a (fold_left (add_edge m) es []) /\ e_u a = e_u e /\ e_v a = e_v e /\ (m = true -> e_k a = e_k e).
+Proof. exact build_arcs_complete. Qed.
+Print Assumptions C26_build_arcs_complete.
+
+(* the returned graph = the build-stage graph restricted to the buses that are not gone (gone = nogobus, or out of
+   service unless include_out_of_service), minus the arcs that leave a notravbus; no arc dangles *)
+Theorem C26_stages_exact : forall o n lens g, create_nxgraph o n lens = Ok g ->
+  exists es, raw_edges o n lens = Ok es /\
+    (forall x, In x (g_nodes g) <-> In x (g_nodes (build_graph o n es)) /\ ~ gone o n x) /\
+    (forall a, In a (g_arcs g) <->
+       In a (g_arcs (build_graph o n es)) /\ ~ gone o n (e_u a) /\ ~ gone o n (e_v a) /\ ~ In (e_u a) (notrav_list o)) /\
+    no_dangling g = true.
+Proof. exact create_nxgraph_stages. Qed.
+Print Assumptions C26_stages_exact.
+
+(* once the edge tables are found, create_nxgraph raises only for a nogobus that is no node of the graph (or is listed
+   twice): networkx' remove_node never fails on the out-of-service buses, the notravbuses deletion never fails *)
+Theorem C26_valid_options_never_raise : forall o n lens es, raw_edges o n lens = Ok es ->
+  NoDup (nogo_list o) -> (forall b, In b (nogo_list o) -> In b (g_nodes (build_graph o n es))) ->
+  exists g, create_nxgraph o n lens = Ok g.
+Proof. exact create_nxgraph_total. Qed.
+Print Assumptions C26_valid_options_never_raise.
+
+(* without notravbuses the returned adjacency is symmetric and closed, so C26_cc_partition applies to every returned graph *)
+Theorem C26_created_graph_symmetric : forall o n lens g,
+  create_nxgraph o n lens = Ok g -> notrav_list o = [] -> sym_arcs g = true.
+Proof. exact create_nxgraph_sym. Qed.
+Print Assumptions C26_created_graph_symmetric.
+Theorem C26_cc_partition_created : forall o n lens g, create_nxgraph o n lens = Ok g -> notrav_list o = [] ->
+  (forall x, In x (g_nodes g) -> exists c, In c (connected_components g []) /\ In x c) /\
+  (forall c, In c (connected_components g []) ->
+     (exists x, In x (g_nodes g) /\ forall y, In y c <-> path (uarcs g) x y) /\ incl c (g_nodes g)) /\
+  pairwise_disjoint (connected_components g []).
+Proof. exact cc_partition_created. Qed.
+Print Assumptions C26_cc_partition_created.
+
+(* nogobuses / notravbuses semantics on walks (walk_to E x l y: l = the nodes visited after x, ending in y; equivalent
+   to Base/C07Graph.path): on every walk of the returned graph all nodes but the last are no notravbuses (a notravbus is
+   reached, never traversed), and a walk with at least one arc visits only nodes of the graph, none of them gone *)
+Theorem C26_path_is_walk : forall E x y, path E x y <-> exists l, walk_to E x l y.
+Proof. exact path_walk. Qed.
+Print Assumptions C26_path_is_walk.
+Theorem C26_walk_avoids : forall o n lens g, create_nxgraph o n lens = Ok g ->
+  forall l x y, walk_to (uarcs g) x l y ->
+    (forall b, In b (removelast (x :: l)) -> ~ In b (notrav_list o)) /\
+    (l <> [] -> forall b, In b (x :: l) -> In b (g_nodes g) /\ ~ gone o n b).
+Proof. exact walk_avoids. Qed.
+Print Assumptions C26_walk_avoids.
+(* and exactly those: compared with the same call without notravbuses, the walks of the graph are the walks of that
+   graph on which no notravbus is left again; the node lists are equal *)
+Theorem C26_notrav_walks_exact : forall o n lens g g0,
+  create_nxgraph o n lens = Ok g -> create_nxgraph (without_notrav o) n lens = Ok g0 ->
+  g_nodes g = g_nodes g0 /\
+  forall l x y, walk_to (uarcs g) x l y <->
+                walk_to (uarcs g0) x l y /\ forall b, In b (removelast (x :: l)) -> ~ In b (notrav_list o).
+Proof. exact notrav_walks. Qed.
+Print Assumptions C26_notrav_walks_exact.
+(* graph_searches.connected_component called with the notravbuses the graph was built with = reachability in the graph *)
+Theorem C26_cc_built_notrav : forall o n lens g x y, create_nxgraph o n lens = Ok g ->
+  In y (connected_component g (notrav_list o) x) <-> path (uarcs g) x y.
+Proof. exact cc_built_notrav. Qed.
+Print Assumptions C26_cc_built_notrav.
+
+Example C26_stages_nonvacuous :
+  exists g, create_nxgraph (o_default [1]) w_chain [1; 1; 1]%Q = Ok g /\
+    g_nodes g = [0; 1; 3] /\ g_arcs g = [(0, 1, (0, 0), 1%Q)] /\ walk_to (uarcs g) 0 [1] 1.
+Proof. exact stages_nonvacuous. Qed.
+Print Assumptions C26_stages_nonvacuous.
 
 Example C26_nonvacuous :
   let g := {| g_nodes := [0; 1; 2; 3]; g_arcs := [(0, 1, (0, 0), 2%Q); (1, 0, (0, 0), 2%Q); (1, 2, (0, 1), 1%Q); (2, 1, (0, 1), 1%Q);
